@@ -70,7 +70,14 @@ MUTS = ([o + ':' + k for o in ARITH for k in ('num', 'arr', 'obj', 'objm', 'objT
         ['set:sl:bad', 'set:sl:badT', 'set:sl:badm', 'set:bm:badT', 'iadd:bad', 'iadd:badT', 'isub:badarr', 'imul:bad',
          'itruediv:badT', 'iand:bad'] +
         ['insd:t', 'insd:u', 'insds', 'deld:t', 'deld:zz', 'delds', 'delds:pt',
-         'units:km', 'units:none', 'units:sec', 'ro', 'ro:nr', 'hold:arr'])
+         'units:km', 'units:none', 'units:sec', 'ro', 'ro:nr', 'hold:arr'] +
+        # non-default argument forms (the override forms also work on a read-only object)
+        ['deld:t:o', 'delds:o', 'units:km:o', 'insd:t:no', 'insds:o'])
+
+
+# mutators applied to the HELD SHRUNK object s (read-only): what is allowed on a read-only object, the override
+# forms, and a rejected item assignment; followed by `unheld` they show whether s's cached original is still right
+SOPS = ['s:insd', 's:deld:o', 's:units:o', 's:set', 's:insds']
 
 
 def is_query(op):
@@ -84,7 +91,7 @@ def expects_mutator(op):
 
 
 def _alphabet(name):
-    ops = list(QUERIES) + list(MUTS)
+    ops = list(QUERIES) + list(MUTS) + list(SOPS)
     if name.startswith('B'):
         ops = [o for o in ops if o != 'q:median']
     if not name.startswith(('S', 'I')):
@@ -96,11 +103,11 @@ ALPHABET = {n: _alphabet(n) for n in OBJECTS}
 _CQ = ['q:antimask', 'q:corners', 'q:slicer', 'q:wod']
 COMPACT = {
     'S3m': _CQ + ['set:sl:badT', 'iadd:bad', 'iadd:num', 'imul:objm', 'set:0:masked', 'set:sl:obj', 'insd:t', 'units:km', 'ro', 'shun:arr', 'q:times2'],
-    'S3': _CQ + ['set:sl:badT', 'set:sl:badm', 'isub:arr', 'itruediv:zero', 'imod:objm', 'imod:objz', 'ifloordiv:arrz', 'set:bm:num', 'set:mi:num', 'insd:t', 'deld:t', 'hold:arr', 'unheld'],
+    'S3': _CQ + ['set:sl:badT', 'set:sl:badm', 'isub:arr', 'itruediv:zero', 'imod:objm', 'imod:objz', 'ifloordiv:arrz', 'set:bm:num', 'set:mi:num', 'insd:t', 'deld:t', 'hold:arr', 'unheld', 's:insd', 's:units:o'],
     'S0': _CQ + ['iadd:num', 'imul:num', 'iadd:objm', 'set:all:num', 'set:sl:objm', 'insd:t', 'shun:arr', 'ro'],
-    'S0d': _CQ + ['iadd:num', 'isub:arr', 'imul:num', 'itruediv:num', 'imod:num', 'ifloordiv:num', 'imod:objz', 'itruediv:objzd', 'deld:t', 'units:km', 'ro', 'q:plus1'],
-    'S3d': _CQ + ['set:sl:badT', 'imul:bad', 'iadd:num', 'imul:num', 'iadd:objd', 'imul:objm', 'set:0:masked', 'delds', 'ro', 'shun:arr', 'holdw', 'q:heldw'],
-    'S23m': _CQ + ['set:sl:badT', 'set:bm:badT', 'set:0:num', 'set:sl:objm', 'iadd:objm', 'imul:objT', 'shun:arr', 'hold:arr', 'unheld', 'q:mod2', 'imod:arrz', 'itruediv:objz'],
+    'S0d': _CQ + ['iadd:num', 'isub:arr', 'imul:num', 'itruediv:num', 'imod:num', 'ifloordiv:num', 'imod:objz', 'itruediv:objzd', 'deld:t', 'units:km', 'ro', 'ro:nr', 'q:plus1'],
+    'S3d': _CQ + ['set:sl:badT', 'imul:bad', 'iadd:num', 'imul:num', 'iadd:objd', 'imul:objm', 'set:0:masked', 'delds', 'ro', 'ro:nr', 'shun:arr', 'holdw', 'q:heldw'],
+    'S23m': _CQ + ['set:sl:badT', 'set:bm:badT', 'set:0:num', 'set:sl:objm', 'iadd:objm', 'imul:objT', 'shun:arr', 'hold:arr', 'unheld', 's:insd', 's:deld:o', 'q:mod2', 'imod:arrz', 'itruediv:objz'],
     'I3': _CQ + ['iand:objm', 'ior:arr', 'ixor:obj', 'iadd:num', 'ifloordiv:obj', 'ifloordiv:objz', 'imod:objm', 'imod:zero', 'insd:t'],
     'I0d': _CQ + ['iand:bool', 'ior:objm', 'iadd:num', 'imul:num', 'deld:t', 'ro'],
     'B3': _CQ + ['set:sl:bad', 'iand:bad', 'iand:objm', 'ior:objm', 'ixor:objm', 'iand:bool', 'ior:arr', 'set:0:masked', 'shun:arr'],
@@ -108,7 +115,7 @@ COMPACT = {
     'V2d': _CQ + ['iadd:objm', 'imul:num', 'imul:objm', 'itruediv:num', 'itruediv:objz', 'set:0:masked', 'deld:t', 'units:km'],
     'V0': _CQ + ['iadd:obj', 'imul:num', 'imul:objT', 'set:all:num', 'insd:t'],
     'M2': _CQ + ['imul:num', 'imul:obj', 'iadd:objm', 'set:0:masked', 'ro'],
-    'S3ro': _CQ + ['iadd:num', 'insd:u', 'deld:t', 'units:km', 'set:0:num', 'shun:arr'],
+    'S3ro': _CQ + ['iadd:num', 'insd:u', 'deld:t', 'deld:t:o', 'units:km', 'units:km:o', 'set:0:num', 'shun:arr'],
     'M3': _CQ + ['imul:obj', 'imul:num', 'itruediv:num', 'itruediv:objz', 'set:0:masked', 'insd:t'],
     'Q2': _CQ + ['imul:num', 'iadd:objm', 'itruediv:objz', 'set:0:masked', 'ro'],
     'P2': _CQ + ['iadd:obj', 'isub:objm', 'imul:num', 'itruediv:num', 'itruediv:objz', 'set:0:masked'],
@@ -123,10 +130,10 @@ COMPACT = {
 # the full compact alphabets above; everything else is left to the thorough tier
 QUICK3 = {
     'S3m': _CQ + ['set:sl:badT', 'imul:objm', 'units:km', 'set:0:masked', 'iadd:num'],
-    'S3': _CQ + ['set:sl:badm', 'imod:objz', 'hold:arr', 'unheld', 'set:mi:num'],
+    'S3': _CQ + ['set:sl:badm', 'imod:objz', 'hold:arr', 'unheld', 's:insd'],
     'S0': _CQ + ['iadd:num', 'set:all:num', 'set:sl:objm', 'iadd:objm', 'shun:arr'],
     'S0d': _CQ + ['iadd:num', 'imul:num', 'imod:objz', 'units:km', 'q:plus1'],
-    'S3d': _CQ + ['imul:objm', 'iadd:objd', 'holdw', 'q:heldw', 'ro'],
+    'S3d': _CQ + ['imul:objm', 'ro:nr', 'holdw', 'q:heldw', 'ro'],
     'S23m': _CQ + ['set:bm:badT', 'set:sl:objm', 'imod:arrz', 'shun:arr', 'iadd:objm'],
     'I3': _CQ + ['iand:objm', 'imod:zero', 'ifloordiv:objz', 'iadd:num', 'insd:t'],
     'I0d': _CQ + ['iand:bool', 'ior:objm', 'iadd:num', 'imul:num', 'deld:t'],
@@ -135,7 +142,7 @@ QUICK3 = {
     'V2d': _CQ + ['iadd:objm', 'imul:objm', 'itruediv:objz', 'set:0:masked', 'units:km'],
     'V0': _CQ + ['iadd:obj', 'imul:objT', 'set:all:num', 'insd:t', 'imul:num'],
     'M2': _CQ + ['imul:obj', 'iadd:objm', 'set:0:masked', 'imul:num', 'ro'],
-    'S3ro': _CQ + ['iadd:num', 'insd:u', 'deld:t', 'units:km', 'shun:arr'],
+    'S3ro': _CQ + ['iadd:num', 'insd:u', 'deld:t:o', 'units:km:o', 'shun:arr'],
 }
 
 
@@ -353,6 +360,40 @@ def apply_op(st, op):
             val = b[idx] if a._shape_ else b
         a[idx] = val
         return 'ok'
+    if h == 's':
+        s_ = st.get('s')
+        if s_ is None or s_ is a:
+            return 'none'
+        what = p[1]
+        vs = np.shape(s_._values_)
+        if what == 'insd':
+            s_.insert_deriv('t', type(s_)(np.full(vs, .5) if vs else .5))
+        elif what == 'insds':
+            s_.insert_derivs({'t': type(s_)(np.full(vs, .25) if vs else .25),
+                              'v': type(s_)(np.full(vs, 4.) if vs else 4.)}, override=True)
+        elif what == 'deld':
+            s_.delete_deriv('t', override=True)
+        elif what == 'units':
+            s_.set_units(Units.KM, override=True)
+        elif what == 'set':
+            s_[0] = 7.
+        return 'ok'
+    if h == 'insd' and len(p) > 2:
+        cls = type(a)
+        vs = np.shape(a._values_)
+        a.insert_deriv(p[1], cls(np.full(vs, .75) if vs else .75), override=False)
+        return 'ok'
+    if h == 'insds' and len(p) > 1:
+        cls = type(a)
+        vs = np.shape(a._values_)
+        a.insert_derivs({'t': cls(np.full(vs, .25) if vs else .25)}, override=True)
+        return 'ok'
+    if h == 'deld' and len(p) > 2:
+        a.delete_deriv(p[1], override=True); return 'ok'
+    if h == 'delds' and len(p) > 1 and p[1] == 'o':
+        a.delete_derivs(override=True); return 'ok'
+    if h == 'units' and len(p) > 2:
+        a.set_units({'km': Units.KM}[p[1]], override=True); return 'ok'
     if h == 'insd':
         cls = type(a)
         vs = np.shape(a._values_)
